@@ -98,6 +98,16 @@ class World:
         kw.pop("package", None)
         kw.pop("name", None)
         kw.pop("future", None)
+        chain = kw.pop("chain", False)
+        self.chained = bool(chain)
+        if chain:
+            overlay = os.path.join(self.top, "overlay")
+            os.makedirs(overlay)
+            with open(os.path.join(overlay, "only-here.txt"), "w") as f:
+                f.write("x")
+            self.apps = {("wsgi", "Files"): W.Files(overlay, handle_404=W.Files(self.dir, **kw)), ("wsgi", "Pages"): W.Pages(overlay, handle_404=W.Pages(self.dir, **kw)),
+                         ("asgi", "Files"): A.Files(overlay, handle_404=A.Files(self.dir, **kw)), ("asgi", "Pages"): A.Pages(overlay, handle_404=A.Pages(self.dir, **kw))}
+            return
         if self.package:
             import importlib
             sys.path.insert(0, self.top)
@@ -153,14 +163,16 @@ class World:
     def request(self, key, headers, method="GET", fname=None):
         iface, kind = key
         fname = fname or self.fname
-        path = "/" + fname if kind == "Files" else "/" + fname[:-len(".html")]
+        path = "/" + fname if kind == "Files" or not fname.endswith(".html") else "/" + fname[:-len(".html")]
         req = SV.AReq(method=method, path=path, headers=headers)
         app = self.apps[key]
         if iface == "wsgi":
             return SV.run_wsgi(app, SV.to_environ(req))
         scope = SV.to_scope(req)
         self.nreq = getattr(self, "nreq", 0) + 1
-        if self.nreq % 2:
+        if self.nreq % 2 and not getattr(self, "chained", False):
+            # (not in front of a chain of applications: a scope is shared by every application a request passes through, and no
+            #  stack of ASGI applications could work if its first member used up the only pass over the headers)
             scope["headers"] = iter(scope["headers"])  # ASGI only promises an iterable: every other request gets one that can be read once
         return SV.run_asgi(app, scope, SV.to_messages(req))
 
@@ -203,7 +215,9 @@ def validator_headers(form, v):
 
 # (fraction of a second on the file clock, process time zone, application settings)
 VARIANTS = [(0.0, None, None), (0.6, None, None), (0.0, "America/New_York", None), (0.25, "Asia/Shanghai", None),
-            (0.0, None, {"package": True}), (0.0, None, {"name": "app.3f2a9c1bdeadbeef.html"}), (0.0, None, {"name": "lib-0123456789abcdef0123456789abcdef.min.html"}), (0.0, None, {"future": True}), (0.0, None, {"cacheability": "no-cache"}), (0.0, None, {"cacheability": "private", "max_age": 0}), (0.0, None, {"cacheability": "no-store", "max_age": 1})]
+            (0.0, None, {"package": True}), (0.0, None, {"name": "app.3f2a9c1bdeadbeef.html"}), (0.0, None, {"name": "lib-0123456789abcdef0123456789abcdef.min.html"}), (0.0, None, {"future": True}), (0.0, None, {"cacheability": "no-cache"}), (0.0, None, {"cacheability": "private", "max_age": 0}), (0.0, None, {"cacheability": "no-store", "max_age": 1}),
+            # an overlay directory in front (the file lives in the fallback app); names whose media type cannot be guessed
+            (0.0, None, {"chain": True}), (0.0, None, {"name": "LICENSE"}), (0.6, None, {"name": "data.bin"})]
 
 
 def run_history(hist, r, collect_only=False, variant=0):
